@@ -29,9 +29,9 @@ type c17Inst struct {
 
 var c17Sources = []string{"a", "b", "@", "a.b", "a[0]", "a.a", "[0]", "(a[*])", "(a[])", "(*)", "(a[?a])", "(a.*)", "[a,b]", "{k:a}.k",
 	"`[1,null,[2,null],{\"a\":[1]}]`", "$.a", "(a[1:])", "(@)", "a[-1]", "not_null(a,b)"}
-var c17Proj = []string{"[*]", "[]", "[?a]", "[?@]", "[1:]", "[::-1]", ".*", "[0:1]"}
+var c17Proj = []string{"[*]", "[]", "[?a]", "[?@]", "[1:]", "[::-1]", ".*", "[0:1]", "[?!a]", "[?@ == `null` || @]"}
 var c17Steps = []string{".a", ".b", "[0]", "[-1]", "[*]", ".*", "[?a]", "[1:]", ".[a]", ".[a,b]", ".{k:a}", ".k"}
-var c17Dotables = []string{"a", "b", "a.b", "a[0]", "[a]", "[a,b]", "{k:a}", `"a"`, "type(@)", "to_array(@)", "a[*]", "*", "a.*", "[a][0]"}
+var c17Dotables = []string{"a", "b", "a.b", "a[0]", "[a]", "[a,b]", "{k:a}", `"a"`, "type(@)", "to_array(@)", "a[*]", "*", "a.*", "[a][0]", "b.type(@)", "a.to_array(@)", "b.not_null(@, 'd')", "[@]", "{v: @}", "a.[@]"}
 var c17Exprs = []string{"a", "b", "@", "a.b", "a[0]", "a[*]", "a.*", "`1`", "`null`", "'s'", "a || b", "a[?a]", "[a]", "length(@)", "$"}
 
 func c17Chains(maxLen int) []string {
@@ -82,6 +82,13 @@ func c17Instances(thorough bool) []c17Inst {
 				// 3. the same with the projection closed by parentheses
 				out = append(out, c17Inst{Schema: "paren-proj-pipe", Kind: "eq", LHS: p + s, RHS: "(" + p + ") | [*]" + s, Guard: g})
 			}
+			// 0. a projection without selectors equals itself piped into [*] (for arrays; a string slice is a string)
+			g0 := ""
+			if strings.Contains(t, ":") {
+				g0 = "type(" + x + ")"
+			}
+			out = append(out, c17Inst{Schema: "proj-is-own-wildcard", Kind: "arrayonly", LHS: p, RHS: p + " | [*]", Guard: g0})
+			out = append(out, c17Inst{Schema: "proj-is-own-wildcard", Kind: "arrayonly", LHS: "(" + p + ")", RHS: "(" + p + ")[*]", Guard: g0})
 			// 5. parenthesising or piping ends a projection
 			for _, s := range []string{".a", "[0]", "[*]", ".*", "[?a]", "[1:]", "[]", "[-1]", ".b"} {
 				out = append(out, c17Inst{Schema: "paren-closes", Kind: "eq", LHS: "(" + p + ")" + s, RHS: p + " | " + strings.TrimPrefix(s, ".")})
@@ -247,6 +254,12 @@ func (p *c17Prepared) check(r *core.Run, d doc) (lhs, rhs core.Obs, judged bool)
 	rhs = p.rhs.run(d.Raw)
 	r.Add("evaluations", 1)
 	switch i.Kind {
+	case "arrayonly":
+		if lhs.Kind == "ok" {
+			if _, isArr := lhs.Val.([]any); !isArr && lhs.Val != nil {
+				return lhs, rhs, false
+			}
+		}
 	case "prune":
 		if rhs.Kind == "err" && len(rhs.Cats) == 1 && rhs.Cats[0] == "invalid-type" && lhs.Kind == "ok" && lhs.Val == nil {
 			return lhs, rhs, false // x is not an array
